@@ -18,13 +18,14 @@ open RTV.Py RTV.Re RTV.Choice
 def boolEnv : Env := RTV.Choice.genEnv
 
 /-- variant string: any of `prefix` (span offset), `miss1` (index_of answers 1), `noinit` (parse_results unbound),
-joined by `+`; `fixed` = current code -/
+`pscore0` (the parser reports the default score 0.0), joined by `+`; `fixed` = current code -/
 def pickEnv (w : String) : Env :=
   let ps := w.splitOn "+"
   { RTV.Choice.genEnv with
     useMatchOffset := !ps.contains "prefix"
     missIndex := if ps.contains "miss1" then 1 else -1
-    parseInit := !ps.contains "noinit" }
+    parseInit := !ps.contains "noinit"
+    parserKeepsScore := !ps.contains "pscore0" }
 
 def showScore (s : Score) : String := s!"{s.num}/{s.den}"
 
